@@ -2553,14 +2553,24 @@ def run_c19(ctx):
     import shutil
     wd = cli.workdir("C19")
     ctx.workdirs.append(wd)
-    src = b"begin\n  if A then begin\n    Foo(aaaaaaaaaaaa, bbbbbbbbbbbbb, cccccccccccc, dddddddddddd);\n  end;\nend.\n"
+    # (every option must be observable on the input: a line to wrap, nested blocks, a `begin` to place, a multi-line literal to re-indent)
+    src = b"begin\n  if A then begin\n    Foo(aaaaaaaaaaaa, bbbbbbbbbbbbb, cccccccccccc, dddddddddddd);\n      Query := '''\n    select *\n      from t\n    ''';\n  end;\nend.\n"
+    # "the defaults" are the documented ones: what `-C help` tells the user.  The reference run spells out EVERY option, the documented
+    # default for each one the case leaves unset, so that a default that silently differs from its documentation is a difference
+    rc0, helptext, _ = cli.run(["-C", "help"], wd)
+    DOC_DEFAULTS = dict(re.findall(r"^(\w+) .*\(default: ([^)\s]+)\)\s*$", helptext.decode("utf-8", "replace"), re.M))
+    ctx.count("documented_defaults", len(DOC_DEFAULTS))
+    if rc0 != 0 or not set(["wrap_column", "begin_style", "format_multiline_strings", "use_tabs", "tab_width", "continuation_indents", "line_ending"]) <= set(DOC_DEFAULTS):
+        ctx.fail("config_help_unreadable", ctx.case("cfg", "-C help", gen.DEFAULT_CFG), "`-C help` does not list a default for every option: %r" % DOC_DEFAULTS)
     KEYS = {"wrap_column": [20, 40, 80, 120], "begin_style": ['"auto"', '"always_wrap"'], "format_multiline_strings": ["true", "false"],
             "use_tabs": ["true", "false"], "tab_width": [1, 2, 4, 8], "continuation_indents": [0, 1, 2, 3], "line_ending": ['"lf"', '"crlf"']}
 
     def fmt_with(assign, cwd, extra=None):
         """reference: everything through -C with an explicit empty config file"""
         args = ["--config-file", cli.empty_cfg(wd)]
-        for k, v in assign.items():
+        full = dict(DOC_DEFAULTS)
+        full.update(assign)
+        for k, v in full.items():
             args += ["-C", "%s=%s" % (k, str(v).strip('"'))]
         return cli.run(args + (extra or []), cwd, stdin=src)
 
